@@ -188,7 +188,7 @@ async fn run(plan: Plan) -> Outcome {
 
     let mut broker = Broker::default();
     let inbound_payload = pattern(BIG, 0x5a);
-    broker.inject_after_suback = Some(crate::refcodec::encode(&gneiss_mqtt::verif::Pkt::Publish(gneiss_mqtt::verif::VPublish { topic: "in/big".into(), qos: 1, packet_id: 77, payload: Some(inbound_payload.clone()), ..Default::default() }), false).unwrap());
+    broker.inject_after_suback = Some(super::broker::injected_publish(plan.workload, &inbound_payload));
     let big_payload = pattern(BIG, 0x11);
 
     let results: Arc<Mutex<Vec<(String, bool)>>> = Arc::new(Mutex::new(Vec::new()));
@@ -269,7 +269,11 @@ async fn run(plan: Plan) -> Outcome {
                     let (r, f) = (results.clone(), client.subscribe(subscribe, None)); tokio::spawn(async move { let o = f.await; r.lock().unwrap().push(("subscribe".to_string(), o.is_ok())); });
                 }
                 1 => { expected.push("small".into()); track_publish("small", client.publish(PublishPacket::builder("out/small".to_string(), QualityOfService::AtLeastOnce).with_payload(vec![1, 2, 3]).build(), None), &results); }
-                2 => { expected.push("big".into()); track_publish("big", client.publish(PublishPacket::builder("out/big".to_string(), QualityOfService::AtLeastOnce).with_payload(big_payload.clone()).build(), None), &results); }
+                2 => { expected.push("big".into()); track_publish("big", client.publish(PublishPacket::builder("out/big".to_string(), if plan.workload == 1 { QualityOfService::ExactlyOnce } else { QualityOfService::AtLeastOnce }).with_payload(big_payload.clone()).build(), None), &results); }
+                3 if plan.workload == 1 => {
+                    expected.push("unsubscribe".into());
+                    let (r, f) = (results.clone(), client.unsubscribe(UnsubscribePacket::builder().with_topic_filter("gone/#".to_string()).build(), None)); tokio::spawn(async move { let o = f.await; r.lock().unwrap().push(("unsubscribe".to_string(), o.is_ok())); });
+                }
                 3 => { expected.push("q0".into()); track_publish("q0", client.publish(PublishPacket::builder("out/q0".to_string(), QualityOfService::AtMostOnce).with_payload(vec![4]).build(), None), &results); }
                 4 => { expected.push("invalid-topic".into()); track_publish("invalid-topic", client.publish(PublishPacket::builder("bad/#".to_string(), QualityOfService::AtLeastOnce).with_payload(vec![6]).build(), None), &results); }
                 _ => {
@@ -283,7 +287,7 @@ async fn run(plan: Plan) -> Outcome {
         let all_resolved = { let r = results.lock().unwrap(); expected.iter().all(|n| r.iter().any(|(m, _)| m == n)) };
         if received.is_empty() && for_client.is_empty() && event_list.len() == last_events { idle_rounds += 1; } else { idle_rounds = 0; }
         last_events = event_list.len();
-        if submitted_workload && !stop_issued && !close_issued && all_resolved && (!inbound.lock().unwrap().is_empty() || (broker.to_client.is_empty() && idle_rounds > 4)) {
+        if submitted_workload && !stop_issued && !close_issued && all_resolved && ((!inbound.lock().unwrap().is_empty() && (plan.workload == 0 || broker.inject_acked)) || (broker.to_client.is_empty() && idle_rounds > 4)) {
             let _ = client.stop(None); stop_issued = true;
         }
         let stopped = event_list.iter().filter(|e| *e == "Stopped").count();
